@@ -1374,6 +1374,7 @@ package flags
 //@ pure func cmdOffered(c *completion, cmd *Command, match string) bool = cmd.data != c && !cmd.Hidden && strings.HasPrefix(cmd.Name, match)
 //@ func (c *completion) completeCommands(s *parseState, match string) (r []Completion)
 //@   props C18 C04
+//@   traced
 //@   requires s != nil && s.command != nil
 //@   loop 1 invariant len(n) <= idx_1
 //@   loop 1 invariant forall(i, 0, len(n), exists(j, 0, idx_1, cmdOffered(c, s.command.commands[j], match) && n[i].Item == s.command.commands[j].Name && n[i].Description == s.command.commands[j].ShortDescription))
@@ -1404,6 +1405,7 @@ package flags
 //@ pure func rankL(s *parseState, keys []string, match string, k int) int = ite(k <= 0, 0, rankL(s, keys, match, k-1) + ite(longOff(s, keys[k-1], match), 1, 0))
 //@ func (c *completion) completeOptionNames(s *parseState, prefix string, match string, short bool) (r []Completion)
 //@   nomerge
+//@   traced
 //@   props C18 C04
 //@   requires s != nil
 //@   loop 1 invariant !isnil(repeats)
@@ -1425,16 +1427,41 @@ package flags
 
 // Value completion: the completions of the option's type, each with the
 // spelling typed so far put back in front.
-//@ assumed func (c *completion) completeValue(value reflect.Value, prefix string, match string) (r []Completion)
+//@ assumed func Completer.Complete(cmp Completer, match string) (r []Completion)
 //@   traced
+//@ assumed func reflect.Value.Kind(v reflect.Value) (k reflect.Kind)
+//@   pure
+//@ assumed func reflect.Value.Interface(v reflect.Value) (i interface{})
+//@   pure
+//@ assumed func reflect.Value.CanAddr(v reflect.Value) (r bool)
+//@   pure
+//@ assumed func reflect.Value.Addr(v reflect.Value) (r reflect.Value)
+//@   pure
+//@ func (c *completion) completeValue(value reflect.Value, prefix string, match string) (r []Completion)
+//@   props C18 C04
+//@   traced
+//@   let k0 := ncalls(Completer.Complete)
+//@   loop 1 invariant len(ret) == len(loopentry(ret)) && forall(j, 0, idx_1, ret[j].Item == prefix + loopentry(ret)[j].Item && ret[j].Description == loopentry(ret)[j].Description) && forall(j, idx_1, len(ret), ret[j] == loopentry(ret)[j])
+//@   ensures[C18] ncalls(Completer.Complete) <= k0 + 1
+//@   ensures[C18] ncalls(Completer.Complete) == k0 ==> len(r) == 0
+//@   ensures[C18] ncalls(Completer.Complete) == k0 + 1 ==> callarg(Completer.Complete, k0, 1) == match && len(r) == len(callres(Completer.Complete, k0, 0)) && forall(j, 0, len(r), r[j].Item == prefix + callres(Completer.Complete, k0, 0)[j].Item && r[j].Description == callres(Completer.Complete, k0, 0)[j].Description)
 
 // The walk over the words typed so far, then the dispatch on the last word.
 // The result is sorted by item.
 //@ func (c *completion) complete(args []string) (r []Completion)
+//@   nomerge
 //@   props C18 C15 C04
 //@   requires c != nil && c.parser != nil && c.parser.Command != nil
 //@   loop 1 invariant s != nil && s.command != nil && len(s.args) >= 1
 //@   loop 1 decreases len(s.args)
 //@   loop 2 invariant canarg && (idx_2 > 0 ==> o != nil && idx_2 >= utf8w(optname) && !(shortOpt(s, optname, 0) != nil && shortOpt(s, optname, 0).canArgument() && utf8w(optname) < len(optname)))
 //@   at[C18] call Option.canArgument #2: !islong ==> canarg == !(len(optname) > 0 && shortOpt(s, optname, 0) != nil && shortOpt(s, optname, 0).canArgument() && utf8w(optname) < len(optname))
+//@   let cv0 := ncalls(completion.completeValue)
+//@   let co0 := ncalls(completion.completeOptionNames)
+//@   let cc0 := ncalls(completion.completeCommands)
 //@   ensures[C15,C18] forall(i, 0, len(r), forall(j, i, len(r), r[i].Item <= r[j].Item))
+//@   ensures[C18] (ncalls(completion.completeValue) - cv0) + (ncalls(completion.completeOptionNames) - co0) + (ncalls(completion.completeCommands) - cc0) <= 1
+//@   ensures[C18] ncalls(completion.completeCommands) == cc0 + 1 ==> len(r) == len(callres(completion.completeCommands, cc0, 0)) && forall(i, 0, len(r), exists(j, 0, len(r), r[i] == callres(completion.completeCommands, cc0, 0)[j]))
+//@   ensures[C18] ncalls(completion.completeOptionNames) == co0 + 1 ==> len(r) == len(callres(completion.completeOptionNames, co0, 0)) && forall(i, 0, len(r), exists(j, 0, len(r), r[i] == callres(completion.completeOptionNames, co0, 0)[j]))
+//@   ensures[C18] ncalls(completion.completeValue) == cv0 + 1 ==> len(r) == len(callres(completion.completeValue, cv0, 0)) && forall(i, 0, len(r), exists(j, 0, len(r), r[i] == callres(completion.completeValue, cv0, 0)[j]))
+//@   ensures[C18] ncalls(completion.completeValue) == cv0 && ncalls(completion.completeOptionNames) == co0 && ncalls(completion.completeCommands) == cc0 ==> len(r) == 0
